@@ -182,9 +182,10 @@ type AStr struct {
 
 func isAStr(v Value) bool { _, ok := v.(*AStr); return ok }
 
-type goPanic struct{ v Value }    // a Go-level panic in the target program
-type abortT struct{ why string }  // engine cannot continue on this path
-func abort(why string) abortT     { return abortT{why} }
+type goPanic struct{ v Value }   // a Go-level panic in the target program
+type abortT struct{ why string } // engine cannot continue on this path
+func abort(why string) abortT    { return abortT{why} }
+
 type pathEnd struct{ why string } // path infeasible / assumption failed
 type staleRead struct{ where string }
 type monitorEvent struct{ kind, what string }
